@@ -203,6 +203,7 @@ func runC19(c *Ctx) {
 
 	ruleConflictsSymm(c, p, "C19.symm")
 	ruleSliceOrder(c, p, "C19.slices")
+	ruleAdopt(c, p, "C19.adopt")
 	ruleInferTables(c, p, "C19")
 	rule := ""
 	_ = rule
@@ -794,6 +795,63 @@ func ruleEnumIntPairs(c *Ctx, p *core.Program, rule string) {
 		}
 		return true
 	})
+	// element-wise recursion only for the single-parameter wrappers of the statement
+	elemwise := map[string]bool{}
+	found := false
+	ast.Inspect(fd.Body, func(nd ast.Node) bool {
+		cc, ok := nd.(*ast.CaseClause)
+		if !ok {
+			return true
+		}
+		rec := false
+		for _, st := range cc.Body {
+			ast.Inspect(st, func(x ast.Node) bool {
+				if call, ok := x.(*ast.CallExpr); ok {
+					if sel, ok := call.Fun.(*ast.SelectorExpr); ok && sel.Sel.Name == "Conflicts" {
+						if inner, ok := sel.X.(*ast.CallExpr); ok {
+							if s2, ok := inner.Fun.(*ast.SelectorExpr); ok && s2.Sel.Name == "Elem" {
+								rec = true
+							}
+						}
+					}
+				}
+				return true
+			})
+		}
+		if rec {
+			found = true
+			for _, e := range cc.List {
+				if id, ok := e.(*ast.Ident); ok {
+					elemwise[id.Name] = true
+				}
+			}
+		}
+		return true
+	})
+	if found {
+		want := map[string]bool{"ColumnTypeArray": true, "ColumnTypeNullable": true, "ColumnTypeLowCardinality": true}
+		var extra, missing []string
+		for k := range elemwise {
+			if !want[k] {
+				extra = append(extra, k)
+			}
+		}
+		for k := range want {
+			if !elemwise[k] {
+				missing = append(missing, k)
+			}
+		}
+		sort.Strings(extra)
+		sort.Strings(missing)
+		switch {
+		case len(extra) > 0:
+			c.R.Bad(rule, "proto.(ColumnType).Conflicts/elementwise", cfg, p.Pos(fd.Pos()), "the element-wise comparison c.Elem().Conflicts(b.Elem()) is also applied to "+strings.Join(extra, ", ")+": Elem() of a multi-parameter type is the whole parameter list (`K, V`), of which only the first component is then compared - types differing in a later parameter are declared compatible")
+		case len(missing) > 0:
+			c.R.Bad(rule, "proto.(ColumnType).Conflicts/elementwise", cfg, p.Pos(fd.Pos()), "no element-wise comparison for "+strings.Join(missing, ", ")+" (documented equivalence)")
+		default:
+			c.R.Ok(rule, "proto.(ColumnType).Conflicts/elementwise", cfg, p.Pos(fd.Pos()), "element-wise for Array, Nullable, LowCardinality only")
+		}
+	}
 	if !bad {
 		if n == 0 {
 			c.R.Ok(rule, "proto.(ColumnType).Conflicts/enumwidth", cfg, p.Pos(fd.Pos()), "no enum/raw-integer equivalence clauses").Trivial = true
